@@ -116,7 +116,11 @@ class PITFrozenTimestepMasker(PITTimestepMasker):
             rf,
             trainable=False,
         )
-        self.beta.requires_grad = False
+        # a frozen mask is not an architectural parameter: store it as a buffer (under the same
+        # name), so that it is never listed among the NAS parameters, made trainable or updated
+        beta = self.beta.detach()
+        del self.beta
+        self.register_buffer('beta', beta)
 
     @property
     def trainable(self) -> bool:
